@@ -270,6 +270,11 @@ func (r *replayer) caseFor(hr *HarnessResult, v *Violation) *replayCase {
 			break
 		}
 	}
+	if v.Labels["schedule"] != "" && rc.Attempts < 60 {
+		rc.Attempts = 60 // a goroutine was involved: the native schedule varies
+	}
+	for range []int{} {
+	}
 	return rc
 }
 
